@@ -181,9 +181,12 @@ Definition add_opt (s : side) (r : part * out) (o : obj) (t : option Z) : part *
   | _ => r
   end.
 
-(* Part.add *)
+Definition neg_opt (t : option Z) : bool := match t with Some t => t <? 0 | None => false end.
+
+(* Part.add (as repaired by the D04 fix commit: both times are checked before the timeline is touched) *)
 Definition add (p : part) (o : obj) (s e : option Z) : part * out :=
-  add_opt SEnd (add_opt SStart (p, OutOk) o s) o e.
+  if neg_opt s || neg_opt e then (p, OutInvalidTime)
+  else add_opt SEnd (add_opt SStart (p, OutOk) o s) o e.
 
 (* one half of Part.remove: deregister, clean the point up, clear the back reference *)
 Definition remove_side (s : side) (p : part) (o : obj) : part * out :=
